@@ -311,6 +311,10 @@ CORPUS = [
                                       [["A", (False, ["supports"]), [["D", "p0", "v1", []]]]]]]]]]],
     # C04-D2: IN_UNKNOWN_AT_RULE survives an @at-root that leaves the unknown at-rule
     [["U", "foo", "", [["A", (False, ["foo"]), [["D", "p0", "v1", []]]]]]],
+    # C04-D3: a rule after an @at-root that leaves two levels is written before the @at-root's output
+    [["M", [[0]], [["S", "(s0: v)", [["R", [[["c", None, ["a"]]]],
+                                      [["A", (False, ["media", "supports"]), [["R", [[["c", "", []]]], [["D", "p0", "v1", []]]]]],
+                                       ["R", [[["c", "", []]]], [["D", "p0", "v2", []]]]]]]]]]],
     # copy-when-following-sibling (DESIGN §8 example)
     [["M", [[0]], [["R", [[["c", None, ["a"]]]], [["M", [[1]], [["D", "p0", "v1", []]]],
                                                    ["R", [[["c", None, ["b"]]]], [["D", "p1", "v2", []]]]]]]]],
@@ -322,7 +326,8 @@ CORPUS = [
       [["R", [[["c", None, ["c"]]], [["c", None, ["d"]]], [["c", "", []], "+", ["c", "", []]]], [["D", "p0", "v1", []]]]]]],
 ]
 
-WITNESS_TAGS = {0: "C04-D1", 1: "C04-D2"}
+WITNESS_TAGS = {0: "C04-D1", 1: "C04-D2", 2: "C04-D3"}
+TAGS = ["C04-D1", "C04-D2", "C04-D3"]
 
 # ---------------------------------------------------------------------------------------------
 # evaluation
@@ -456,7 +461,8 @@ def evaluate(ck, pool, trees, record=True):
                        for t, o in zip(trees, obs)])
     failing = []
     for t, m, o, v in zip(trees, model, obs, verdicts):
-        spec, code, specified, fix_outer, fix_unknown, fix_sibling = [norm(x) for x in m]
+        spec, variants_ = norm(m[0]), [norm(x) for x in m[1:]]
+        code, specified = variants_[0], variants_[7]
         on = norm(o)
         src = body_text(t)
         if record:
@@ -470,23 +476,28 @@ def evaluate(ck, pool, trees, record=True):
             ck.hist("outcome:" + ("error" if on == "E" else "status" if isinstance(on, tuple) else f"blocks={min(len(on), 6)}{'+' if len(on) > 6 else ''}"))
             if cs["depth"] >= 3:
                 ck.sample({"source": src, "impl_blocks": on if on == "E" else [list(b) for b in on][:6]}, cap=6)
+        if specified != spec:
+            ck.cov["specified_model_ne_spec"] = ck.cov.get("specified_model_ne_spec", 0) + 1
+            if len(ck.notes) < 3:
+                ck.notes.append({"specified treeBuild differs from flattenSpec": src})
         tie_ok = on == code
         if not tie_ok:
             ck.cov["model_disagreements"] += 1
             if len(ck.disagreements) < 5:
                 ck.disagreements.append({"source": src, "tree": t, "model_treeBuild": code, "impl_observation": on,
-                                         "flattenSpec": spec,
+                                         "flattenSpec": spec, "model_specified": specified,
                                          "localised": "splicing (treeBuild ≠ grass)" if spec == on else "both models differ from grass"})
         direct_ok = (v == "ok holds") and not isinstance(on, tuple)
         if not direct_ok:
             tags = []
             if tie_ok and specified == spec:
-                if fix_outer != code:
-                    tags.append("C04-D1")
-                if fix_unknown != code:
-                    tags.append("C04-D2")
-                if fix_sibling != code:
-                    tags.append("C04-D3")
+                # smallest sets of repaired deviations under which the model yields what the property expects
+                for size in (1, 2, 3):
+                    hit = [mk for mk in range(1, 8) if bin(mk).count("1") == size and variants_[mk] == spec]
+                    if hit:
+                        for mk in hit:
+                            tags += [TAGS[b] for b in range(3) if mk >> b & 1 and TAGS[b] not in tags]
+                        break
             failing.append({"source": src, "tree": t, "impl_observation": on, "expected_by_property": spec,
                             "model_treeBuild_as_found": code, "model_treeBuild_specified": specified,
                             "verdict": v, "tags": tags})
